@@ -5,6 +5,7 @@ package hub
 import (
 	"context"
 	"fmt"
+	"os"
 	"sort"
 	"strings"
 	"time"
@@ -403,10 +404,16 @@ func (c *Client) Lock(keys [][]byte, flags string) string {
 	return "ok"
 }
 
-func (c *Client) Commit() string {
+func (c *Client) Commit() string { return c.CommitCtx(context.Background()) }
+
+// CommitCtx = Commit with the caller's context (a fault may cancel it while a request is outstanding).
+func (c *Client) CommitCtx(ctx context.Context) string {
 	n := c.callBegin("commit")
 	st := c.txn
-	err := st.txn.Commit(context.Background())
+	err := st.txn.Commit(ctx)
+	if err != nil && os.Getenv("HUB_DEBUG_COMMIT") != "" {
+		fmt.Fprintf(os.Stderr, "case %d commit of %d: ctxErr=%v undeterminedErr=%v err=%v\n", c.w.rec.Cases(), st.startTS, ctx.Err(), transaction.VerifUndeterminedErr(st.txn), err)
+	}
 	res := ""
 	switch cl := Classify(err); cl {
 	case "ok":
